@@ -5,7 +5,8 @@
    number on either side, negation, and power under 30 exponent spellings (int, pair, float, Fraction, np.float64/float32/int64, np.power,
    np.sqrt, np.cbrt); it computes the ideal's expectation (exponent map, dimension, base-dimension value as an
    exact rational and as a term, refusal) and checks the algebraic lemmas on the rational model.
-2. Every record is replayed on real Quantity objects (scalar operands written as unit text and as exponent dict,
+2. Every record is replayed on real Quantity objects (scalar operands written as unit text, as exponent dict, as results of earlier arithmetic whose exponents add up to
+   the intended ones, and as operands that have already been used in roots / powers / rebased products / comparisons,
    plain numbers as Python and as NumPy numbers) and, grouped by shape, with array magnitudes whose elements are
    the values of the group's records (the expectation of an element is the record's).
 3. A seeded sample of scenarios over arbitrary linear table units (all admissible one-letter prefixes) is written to a
@@ -48,7 +49,9 @@ def _num(v, kind):
 
 
 def _operand(spec, plain, values, style, numkind):
-    """values: list of [n,d] (one element: scalar)"""
+    """values: list of [n,d] (one element: scalar).
+    style text / dict: the operand is written down; derived: it is the RESULT of earlier arithmetic whose unit exponents add up
+    to the intended ones (q * u**(1,2) * u**(1,2) / u with u = 1 <units>); reused: written down, then used (see _reuse)."""
     if plain:
         if len(values) == 1:
             return _num(values[0], "py" if numkind == "py" else "npscalar")
@@ -57,8 +60,32 @@ def _operand(spec, plain, values, style, numkind):
     if len(values) == 1:
         val = _num(values[0], "py")
     else:
-        val = [v[0] / v[1] for v in values] if style == "text" else np.array([v[0] / v[1] for v in values])
-    return A.make_quantity(val, spec["ex"], style=style)
+        val = [v[0] / v[1] for v in values] if style != "dict" else np.array([v[0] / v[1] for v in values])
+    q = A.make_quantity(val, spec["ex"], style="dict" if style == "dict" else "text")
+    if style == "derived" and spec["ex"]:
+        one = A.make_quantity(1, spec["ex"], style="text")
+        half = A.make_quantity(1, spec["ex"], style="dict") ** (1, 2)
+        q = q * half * half / one
+    return q
+
+
+def _reuse(a, b):
+    """The operands have been operands before: roots, powers, negation, a rebased product, a quotient, a comparison and a query
+    (results discarded; refusals ignored)."""
+    from scinumtools.units import Quantity
+    qs = [x for x in (a, b) if isinstance(x, Quantity)]
+    for x in qs:
+        for f in (np.sqrt, np.cbrt, lambda t: t ** 2, lambda t: -t, lambda t: t.value(t.units())):
+            try:
+                f(x)
+            except Exception:
+                pass
+    if len(qs) == 2:
+        for f in (lambda: (a * b).rebase(), lambda: (b * a).rebase(), lambda: a / b, lambda: a == b, lambda: a + b, lambda: b - a):
+            try:
+                f()
+            except Exception:
+                pass
 
 
 def perform(op, form, lit, n, a, b):
@@ -139,6 +166,9 @@ def run_case(case):
         import warnings
         with warnings.catch_warnings():
             warnings.simplefilter("ignore")
+            if style == "reused":
+                with np.errstate(all="ignore"):
+                    _reuse(a, b)
             res = perform(r0["op"], r0["form"], r0["lit"], r0["n"], a, b)
         exc = None
     except Exception as e:
@@ -223,8 +253,8 @@ def shape_key(r):
 def cases_from_records(recs, rnd, arrays=True):
     cases = []
     for r in recs:
-        for style in ("text", "dict"):
-            if style == "dict" and not r["a"]["ex"] and not r["b"]["ex"]:
+        for style in ("text", "dict", "derived", "reused"):
+            if style != "text" and not r["a"]["ex"] and not r["b"]["ex"]:
                 continue
             cases.append(dict(recs=[r], style=style))
     if arrays:
@@ -238,6 +268,9 @@ def cases_from_records(recs, rnd, arrays=True):
             g = sorted(g, key=lambda r: (r["a"]["v"], r["b"]["v"]))
             cases.append(dict(recs=g, style="text"))
             cases.append(dict(recs=g, style="dict"))
+            if g[0]["a"]["ex"] or g[0]["b"]["ex"]:
+                cases.append(dict(recs=g, style="derived"))
+                cases.append(dict(recs=g, style="reused"))
             # array on one side, one scalar value on the other (broadcast)
             byb = {}
             for r in g:
@@ -300,6 +333,10 @@ def table_scenarios(rnd, n):
             r = rnd.random()
             bex = exmap() if r < 0.45 else (same_dim_variant(aex) if r < 0.85 else
                                             ([{"u": rnd.choice(dimless), "e": [1, 1]}] if r < 0.93 else []))
+        if op in ("mul", "div") and dimless and rnd.random() < 0.2:      # a dimensionless named unit rides along
+            d_ = rnd.choice(dimless)
+            if all(x["u"] != d_ for x in aex + bex):
+                (aex if rnd.random() < 0.5 else bex).append({"u": d_, "e": [rnd.choice([1, 1, -1, 2]), 1]})
         a = {"v": val(), "ex": aex}
         b = {"v": val(), "ex": bex}
         if op == "np.logspace":                      # exponents of ten stay small
